@@ -20,6 +20,7 @@ from vlib import engine, plans
 
 REGRESS = [
     ("Partition", "MC_Partition_prefix", "PanicIffOutOfRange"),
+    ("Partition", "MC_Partition_refines_prefix", "PartitionAlg"),      # the pre-fix machine is NOT a refinement of the proved one
     ("Select", "MC_Select_prefix", "DoneOK"),
     ("Bulk", "MC_Bulk_prefix", "DoneOK"),
     ("RemoveNan", "MC_RemoveNan_prefix", "DoneOK"),
